@@ -145,13 +145,15 @@ func collectPkg(files []*ast.File) *pkgInfo {
 // ---------------------------------------------------------------- roles
 // The functions the ties speak about are found by their place in the call graph below stable
 // entry points, not by their names:
-//   Builder.FromBytes : the 1st package function it calls that returns (any, error) = reduceAny,
-//                       the 1st generic one returning (_, error) = parseTemplatedElements
-//   Get               : the 1st generic package function it calls returning (_, error) = getFromCache;
-//                       the 1st such of that = extractAndConvert; the 1st function of that returning
-//                       (any, bool) = extract
-//   dimension.initFlag: the 1st package function it calls returning (string, bool) = lookupEnv
-//   envVarTmpl.MatchAndResolve, Builder.FromBytes, Get, MustGet, GetOrDefault : fixed (exported API)
+//
+//	Builder.FromBytes : the 1st package function it calls that returns (any, error) = reduceAny,
+//	                    the 1st generic one returning (_, error) = parseTemplatedElements
+//	Get               : the 1st generic package function it calls returning (_, error) = getFromCache;
+//	                    the 1st such of that = extractAndConvert; the 1st function of that returning
+//	                    (any, bool) = extract
+//	dimension.initFlag: the 1st package function it calls returning (string, bool) = lookupEnv
+//	envVarTmpl.MatchAndResolve, Builder.FromBytes, Get, MustGet, GetOrDefault : fixed (exported API)
+//
 // Every other function or method these call is a helper: translated as a Gallina definition of
 // its own (gen_h_<name>) that the tie proofs unfold, so extracting, inlining or renaming helpers
 // does not change what the ties are about.
